@@ -9,6 +9,8 @@ from ..rules import decide_states, fmt_trace, relevant_guards, module_state_rule
 ID = "C12"
 ANCHORS = 'tools.fimo._fast_hits,tools.fimo.fimo,tools.fimo._all_pwm_to_mapping'.split(",")
 MIN_INSTANCES = 12
+# rule families whose findings in this module are derived by an engine (not by comparing spellings): exempt from the rewrite gate
+SEMANTIC_RULES = {"R-DTYPE", "STATE", "R-RACE", "R-WIN", "THRESH"}
 EXPLANATION = (
     "R-WIN: in fimo._fast_hits the window loop is analysed in the linear-constraint domain: (coverage) the last valid start "
     "L-w is visited whenever it exists and (bounded access) every read X[start+i+j] stays below the sequence end - for every "
